@@ -591,7 +591,7 @@ func c38Remote(c *mc.Check, t *c38Tally) {
 				desc["remote_allow_ranges"] = "{" + strings.Join(ds, ", ") + "}"
 			}
 			cfg.Settings["lighthouse"] = lh
-			size := 0
+			size := 50 // (a plain-list counterexample of equal size is preferred as the replay)
 			if g != nil {
 				size += c38Size(g)
 			}
